@@ -503,14 +503,14 @@ func init() {
 
 	planTable["C32"] = func(q bool) *Plan {
 		p := &Plan{Level: "model_checking", Engine: "E-enum + E-sched",
-			Text:      "Trie level: every pattern = prefix of length <= 3 over {a,b,0xff} x every ignore mask over 3 positions (written as lists and as ranges) against every key of length <= 4 over the same alphabet: Trie.Get equals a reference matcher; pairs/triples of patterns with deletion. DB level: a subscriber (patterns: one continuing with 0xFF, a plain prefix, one with an ignored position plus a second pattern, the empty prefix; and, in managed mode, a prefix with writers that put two versions into one request through a managed write batch) is registered and durably blocked before two concurrent committers write matching and non-matching user keys; under every interleaving up to the bound it must receive exactly one KV (key, value, version, user meta) per matching user-key write, in commit-timestamp order, and nothing for a user key matching no pattern.",
+			Text:      "Trie level: every pattern = prefix of length <= 3 over {a,b,0xff} x every ignore mask over 3 positions (written as lists and as ranges) against every key of length <= 4 over the same alphabet: Trie.Get equals a reference matcher; pairs/triples of patterns with deletion. DB level: a subscriber (patterns: one continuing with 0xFF, a plain prefix, one with an ignored position plus a second pattern, the empty prefix; and, in managed mode, a prefix with writers that put two versions into one request through a managed write batch) is registered and durably blocked before two concurrent committers write matching and non-matching user keys; under every interleaving up to the bound it must receive exactly one KV (key, value, version, user meta) per matching user-key write, in commit-timestamp order, and nothing for a user key matching no pattern. Side channel (c32side, inside a bubble, decided at quiescence): a forced value-log GC and a merge operator storing its fold deliver nothing (they commit nothing); a refused Subscribe leaves no subscriber registered and 1100 later commits all arrive; a value buffer re-used right after Commit returned does not change what is delivered.",
 			Note:      "KVs for internal !badger! keys are ignored (the property speaks about user keys).",
 			Technique: "bounded-exhaustive enumeration (trie) + stateless model checking (publisher under the controlled scheduler)",
 			Rule:      "patterns x keys; 4 subscriber cases x schedules up to the bound"}
 		if q {
-			p.Stages = []Stage{en("c32trie", 8, 40, nil), sched("c32pub", 2, 5, 40, prm("cases", 5)), sched("c32pub", 3, 5, 30, prm("cases", 5))}
+			p.Stages = []Stage{en("c32trie", 8, 40, nil), en("c32side", 4, 30, nil), sched("c32pub", 2, 5, 40, prm("cases", 5)), sched("c32pub", 3, 5, 30, prm("cases", 5))}
 		} else {
-			p.Stages = []Stage{en("c32trie", 16, 300, prm("stride", 1)), sched("c32pub", 3, 5, 600, prm("cases", 5))}
+			p.Stages = []Stage{en("c32trie", 16, 300, prm("stride", 1)), en("c32side", 4, 60, nil), sched("c32pub", 3, 5, 600, prm("cases", 5))}
 		}
 		return p
 	}
